@@ -55,6 +55,9 @@ func loadReplay(t *testing.T, v interface{}) bool {
 }
 
 func TestMain(m *testing.M) {
+	if ChildMain() {
+		os.Exit(0)
+	}
 	initLogging()
 	code := m.Run()
 	if os.Getenv("VERIF_SCRATCH") == "" {
